@@ -14,6 +14,7 @@ from . import envs as EV
 from .oracle import all_, any_
 
 MARGIN_VAR = z3.Real("margin!")
+ENV_ERRORS = (AssertionError, ValueError, IndexError, RuntimeError, TypeError, KeyError, explore.ObligationFailed)
 
 
 def admitted(a, mask_row):
@@ -57,11 +58,15 @@ def dyadic_model(E, extra, inst, denom=64, collinear=True):
         for y in inst.ycoords:
             if is_sym(y):
                 s.add(z3.substitute(y == 0, *subs))
+        for ax in dist.collinear_axioms():
+            s.add(z3.substitute(ax, *subs))
     if s.check() != z3.sat:
         return None
     m = s.model()
     # rebuild a model over the original variables by pinning them and re-solving the (now ground-ish) original
     pins = [v == z3.RealVal(m.eval(k, model_completion=True).as_long()) / denom for v, k in ints]
+    if collinear:
+        pins = pins + dist.collinear_axioms()
     if E.check(*extra, *pins) == z3.sat:
         return E.model()
     return None
@@ -70,7 +75,7 @@ def dyadic_model(E, extra, inst, denom=64, collinear=True):
 def candidate_models(E, neg, inst):
     """models of (path ∧ neg), most replay-robust first (DESIGN 1.5-4)"""
     out = []
-    coll = [y == 0 for y in inst.ycoords if is_sym(y)]
+    coll = [y == 0 for y in inst.ycoords if is_sym(y)] + dist.collinear_axioms()
     big = MARGIN_VAR == z3.RealVal("1/1000")
     zero = MARGIN_VAR == 0
     for label, mk in (("dyadic+collinear+margin", lambda: dyadic_model(E, [neg, big], inst)),
@@ -160,7 +165,13 @@ def episode_job(job_id, spec, variant, n, B, mode, source_filter=None, nsteps=No
             acts.append(a)
             prev_done = done
             td.set("action", T.Tensor(a, T.int64))
-            td = env.step(td)["next"]
+            try:
+                td = env.step(td)["next"]
+            except ENV_ERRORS as e:
+                # the real library raises on a mask-admitted action (torch raises RuntimeError/IndexError likewise)
+                if mode == "C02":
+                    ctx.prove(E, f"{spec}[{variant}] t={t}: stepping a mask-admitted action must not raise ({type(e).__name__}: {str(e)[:80]})", False, cex_builder)
+                raise PathAbort()
             ctx.transitions += 1
             if E.obligations:
                 obs = E.obligations
@@ -176,15 +187,127 @@ def episode_job(job_id, spec, variant, n, B, mode, source_filter=None, nsteps=No
             A = T.Tensor([[acts[t][b] for t in range(len(acts))] for b in range(B)], T.int64)
             try:
                 rew = env.get_reward(td, A)
-            except AssertionError as e:
-                ctx.prove(E, f"{spec}[{variant}]: reward computation raised {e}", False, cex_builder)
+            except ENV_ERRORS as e:
+                ctx.prove(E, f"{spec}[{variant}]: reward computation must not raise ({type(e).__name__}: {str(e)[:80]})", False, cex_builder)
                 return
             for b in range(B):
                 obj = orcs[b].objective(sts[b])
-                r = rew.a.reshape(B, -1)[b][0] if rew.a.ndim > 1 else rew.a[b]
+                r = rew.a.reshape(-1)[b] if rew.a.size == B else rew.a.reshape(B, -1)[b][0]
                 ctx.prove(E, f"{spec}[{variant}] row{b}: reward == objective recomputed from instance and actions",
                           s_and(T.s_le(T.s_sub(r, obj), MARGIN_VAR), T.s_le(T.s_sub(obj, r), MARGIN_VAR)), cex_builder)
         # reachability witness (vacuity twin): this path is satisfiable; keep one concrete run for replay
+        if len(ctx.witness) < 1:
+            wm = witness_model(E, inst)
+            if wm is not None:
+                ctx.witness.append(dict(model_replay(sp, n, variant, inst, acts, B, wm), mode="witness"))
+
+    try:
+        E.run(harness)
+    except explore.Inconclusive as e:
+        return ctx.result(E, w, status="inconclusive", error=str(e))
+    finally:
+        EV.MARGIN[0] = 0.0
+    if not ctx.witness and not ctx.cex:
+        return ctx.result(E, w, status="error", error="vacuous harness: no complete path is satisfiable")
+    return ctx.result(E, w)
+
+
+# =============================================================================================== C04
+def independence_job(job_id, spec, variant, n, B, pos, source_filter=None):
+    """row `pos` of a batch of B independent symbolic instances is driven next to batch-mates with their own
+    symbolic actions; the same instance is driven alone (B=1) with the same actions.  Obligations: equal masks at
+    every common step, equal finishing step, and equal reward although the batched row keeps being stepped with
+    mask-offered padding after it finished."""
+    from symtorch.tdict import TensorDict
+
+    sp = EV.SPECS[spec]
+    E = explore.EXP
+    ctx = core.Ctx(job_id)
+    w = world.make_world(source_filter=source_filter)
+    envB = sp.make_env(w, n, variant)
+    env1 = sp.make_env(w, n, variant)
+    Tb = sp.bound(n, variant)
+    NA = sp.n_actions(n, variant)
+    ctx.bounds = {"env": spec, "variant": variant, "n": n, "B": B, "row": pos, "T": Tb}
+    ctx.assumptions.add("every action of every row is admitted by the advertised mask of that row in the batched run")
+    EV.MARGIN[0] = MARGIN_VAR
+
+    def harness():
+        E.assume(MARGIN_VAR >= 0)
+        src = EV.Src(E, ctx)
+        inst = sp.instance(src, B, n, variant)
+        solo_td = TensorDict({k: T.Tensor(v.a[pos : pos + 1].copy(), v.dtype) for k, v in inst.inputs.items()}, batch_size=[1])
+        solo_inputs = dict(solo_td.d)
+        td = envB.reset(inst.td)
+        td1 = env1.reset(solo_td)
+        acts = []
+        solo_done_concrete = False
+        solo_rew = None
+        solo_len = None
+
+        def cex_builder(E_, neg):
+            reps = []
+            for label, m in candidate_models(E_, neg, inst):
+                rb = model_replay(sp, n, variant, inst, acts, B, m)
+                r1 = dict(rb)
+                r1["td"] = {k: core.tensor_to_json(m, v) for k, v in solo_inputs.items()}
+                r1["batch"] = [1]
+                r1["actions"] = [[row[pos]] for row in rb["actions"]][: (solo_len if solo_len is not None else len(rb["actions"]))]
+                reps.append({"kind": "pair", "batched": rb, "solo": r1, "pos": pos, "model_kind": label, "mode": "C04", "spec": spec,
+                             "variant": variant, "n": n})
+            return reps
+
+        for t in range(Tb + 1):
+            done = _flat_done(td, B)
+            ctx.states += 1
+            if not solo_done_concrete:
+                d1 = _flat_done(td1, 1)[0]
+                ctx.prove(E, f"{spec}[{variant}] t={t}: row {pos} finishes at the same step alone and in the batch", s_eq(d1, done[pos]) if is_sym(d1) or is_sym(done[pos]) else d1 == done[pos], cex_builder)
+                if E.branch(done[pos]):
+                    solo_done_concrete = True
+                    solo_len = len(acts)
+                    if acts:
+                        A1 = T.Tensor([[a[pos] for a in acts]], T.int64)
+                        try:
+                            solo_rew = env1.get_reward(td1, A1).a.reshape(-1)[0]
+                        except ENV_ERRORS:
+                            solo_rew = None
+            if E.branch(all_(done)):
+                break
+            if t == Tb:
+                raise PathAbort()
+            mask = td["action_mask"]
+            if not solo_done_concrete:
+                m1 = td1["action_mask"]
+                ctx.prove(E, f"{spec}[{variant}] t={t}: mask of row {pos} is the same alone and in the batch",
+                          all_([s_eq(x, y) if (is_sym(x) or is_sym(y)) else x == y for x, y in zip(list(m1.a[0]), list(mask.a[pos]))]), cex_builder)
+            a = [z3.Int(f"a{t}_{b}") for b in range(B)]
+            for b in range(B):
+                E.assume(z3.And(a[b] >= 0, a[b] < NA))
+                E.assume(_bool(admitted(a[b], list(mask.a[b]))))
+            acts.append(a)
+            td.set("action", T.Tensor(a, T.int64))
+            try:
+                td = envB.step(td)["next"]
+                if not solo_done_concrete:
+                    td1.set("action", T.Tensor([a[pos]], T.int64))
+                    td1 = env1.step(td1)["next"]
+            except ENV_ERRORS as e:
+                ctx.prove(E, f"{spec}[{variant}] t={t}: stepping (incl. padding of finished rows) must not raise ({type(e).__name__}: {str(e)[:80]})", False, cex_builder)
+                raise PathAbort()
+            ctx.transitions += 1
+            E.obligations = []
+        if not solo_done_concrete or solo_rew is None:
+            return
+        A = T.Tensor([[acts[t][b] for t in range(len(acts))] for b in range(B)], T.int64)
+        try:
+            rew = envB.get_reward(td, A)
+        except ENV_ERRORS as e:
+            ctx.prove(E, f"{spec}[{variant}]: batched reward must not raise ({type(e).__name__}: {str(e)[:80]})", False, cex_builder)
+            return
+        r = rew.a.reshape(-1)[pos] if rew.a.size == B else rew.a.reshape(B, -1)[pos][0]
+        ctx.prove(E, f"{spec}[{variant}]: reward of row {pos} equals its solo reward (padding and batch-mates have no influence)",
+                  s_and(T.s_le(T.s_sub(r, solo_rew), MARGIN_VAR), T.s_le(T.s_sub(solo_rew, r), MARGIN_VAR)), cex_builder)
         if len(ctx.witness) < 1:
             wm = witness_model(E, inst)
             if wm is not None:
